@@ -19,7 +19,7 @@ pid, wt = sys.argv[1:3]
 root = "/verif"
 if os.environ.get("MUTEST_SNAPSHOT"):
     snap = "/verif/.build/snap-" + pid
-    head = subprocess.run(["git", "-C", "/verif", "rev-parse", "HEAD"], stdout=subprocess.PIPE, text=True).stdout.strip()
+    head = os.environ.get("MUTEST_SNAPSHOT_REV") or subprocess.run(["git", "-C", "/verif", "rev-parse", "HEAD"], stdout=subprocess.PIPE, text=True).stdout.strip()
     if not os.path.exists(os.path.join(snap, "check")):
         subprocess.run(["git", "-C", "/verif", "worktree", "prune"])
         subprocess.run(["git", "-C", "/verif", "worktree", "add", "--detach", "-f", snap, head, "-q"], check=True)
